@@ -154,7 +154,7 @@ pub mod clock {
     pub struct Sleeper {
         pub deadline: u64,
         pub active: Arc<AtomicBool>,
-        pub fire: Box<dyn Fn() + Send>,
+        pub fire: Box<dyn Fn() + Send + Sync>,
     }
 
     struct State {
